@@ -2088,7 +2088,12 @@ public:
     SBEPP_CPP14_CONSTEXPR random_access_iterator&
         operator-=(difference_type n) noexcept
     {
-        return *this += -n;
+        // not `*this += -n`, `-n` is not representable for the minimum of
+        // `difference_type`
+        ptr -= static_cast<std::ptrdiff_t>(n)
+               * static_cast<std::ptrdiff_t>(block_length);
+        index -= n;
+        return *this;
     }
 
     SBEPP_CPP14_CONSTEXPR random_access_iterator
